@@ -306,9 +306,6 @@ func c08Sem(r *h.Result, rng *h.Rng, n int) error {
 			cases[i]["class"] = class
 			r.Case("sem:"+fmt.Sprint(cases[i]["query"], cases[i]["ctx"], i), true)
 			key := "C08/sql-differs-from-direct-reading:" + strings.Join(f, ",")
-			if isIn("agg-without-grouping", f) {
-				key = "C08/agg-without-grouping-keeps-streams"
-			}
 			if strings.HasPrefix(class, "proved:") || strings.HasPrefix(class, "theorem-rhs-differs:") {
 				// cannot happen while the theorem and the driver are built from the same definitions
 				key = "C08/proved-class-differs:" + class
